@@ -27,6 +27,7 @@ func main() {
 	replay := flag.String("replay", "", "replay file: re-run the rule of the recorded obligation")
 	manifest := flag.String("manifest", "", "write MANIFEST.json to this path and exit")
 	cpuprof := flag.String("cpuprofile", "", "write cpu profile")
+	batch := flag.String("props", "", "evaluation helper: comma-separated properties decided in one process on one load of the repository (quick tier); prints `BATCH property=<id> exit=<code>` after each")
 	bsurvey := flag.String("bsurvey", "", "debug: comma-separated packages (rel paths, root is \"\") to survey with the bounds engine")
 	flag.Parse()
 	go heapWatchdog(*prop)
@@ -78,6 +79,24 @@ func main() {
 			os.Exit(2)
 		}
 		*prop, *only = p, rl
+	}
+	if *batch != "" {
+		prog, err := core.Load(core.LoadConfig{Dir: *repo})
+		worst := 0
+		for _, pid := range strings.Split(*batch, ",") {
+			m, ok := rules.Props[pid]
+			if !ok || !m.Claimed {
+				fmt.Printf("BATCH property=%s exit=2\n", pid)
+				worst = 2
+				continue
+			}
+			code := runOn(pid, "quick", seed, *verif, "", m, time.Now(), prog, err)
+			fmt.Printf("BATCH property=%s exit=%d\n", pid, code)
+			if code > worst {
+				worst = code
+			}
+		}
+		os.Exit(worst)
 	}
 	meta, ok := rules.Props[*prop]
 	if !ok || !meta.Claimed {
@@ -142,6 +161,32 @@ func run(prop, tier string, seed int64, repo, verif, only string, meta rules.Pro
 		}
 	}
 	return final.Finish(verif, toMeta(meta, prop, tier), started)
+}
+
+// runOn: one property, quick tier, on a program that is already loaded (the batch mode of the evaluation scripts; the
+// registered checks always go through run, one process per property).
+func runOn(prop, tier string, seed int64, verif, only string, meta rules.PropMeta, started time.Time, prog *core.Program, loadErr error) int {
+	r := core.NewRun(prop, tier, seed, prog)
+	if loadErr != nil {
+		r.Broken = append(r.Broken, loadErr.Error())
+		return r.Finish(verif, toMeta(meta, prop, tier), started)
+	}
+	r.Count("packages", len(prog.Pkgs))
+	func() {
+		defer func() {
+			if e := recover(); e != nil {
+				r.Broken = append(r.Broken, fmt.Sprintf("analyser panic in rule %s: %v\n%s", r.Rule(), e, debug.Stack()))
+			}
+		}()
+		for _, rl := range rules.For(prop) {
+			if only != "" && rl.ID != only {
+				continue
+			}
+			r.SetRule(rl.ID)
+			rl.Run(r)
+		}
+	}()
+	return r.Finish(verif, toMeta(meta, prop, tier), started)
 }
 
 func toMeta(m rules.PropMeta, prop, tier string) core.Meta {
